@@ -338,6 +338,7 @@
 		cmp	ebx, FLAGS_CPUID7_EBX_AVX512_G1
 		lea	mbin_rbx, [%6 WRT_OPT] ; AVX512/06 opt
 		cmove	mbin_rsi, mbin_rbx
+		jne	_%1_init_done	  ; the /10 code also needs all of group 1
 
 		and	ecx, FLAGS_CPUID7_ECX_AVX512_G2
 		cmp	ecx, FLAGS_CPUID7_ECX_AVX512_G2
@@ -483,6 +484,7 @@
 		cmp	ebx, FLAGS_CPUID7_EBX_AVX512_G1
 		lea	mbin_rbx, [%6 WRT_OPT] ; AVX512/06 opt
 		cmove	mbin_rsi, mbin_rbx
+		jne	_%1_init_done	  ; the AVX512 SHANI code also needs all of group 1
 
 		;; Test for SHANI
 		xor	ecx, ecx
